@@ -117,6 +117,12 @@ CHECKS = {
         "text": "TLC checks the code-shaped k-d tree for every palette (multiset) of <= 4 (thorough 5) points on a 3x3 grid and on the 2x2x2 cube against every query: the search result is at minimal distance and is the indexed colour. Real lookups on palettes of 1..512 colours (random, duplicated and collinear clusters, tiny grids, the crate's LCG palette; sizes around 256/257/512) with random queries and neighbours of palette points, and real quantisations (cropped views incl. small crops of large parents, k in {1,2,7,8,9,16,255,256,1000}, both dither settings, alpha 0/128/255 over two backgrounds) are judged: palette size within 1..max(k,8), index image of the same size with valid entries, nearest colour per pixel without dithering, exact reproduction when the distinct colours fit k and the view is below the sampling threshold.",
         "note": "Octree insertion/pruning is judged only through these end-to-end bounds (no code-shaped octree model yet).",
     },
+    "C10": {
+        "level": "exploration",
+        "technique": "TLA+ layout-tree semantics (absolute clipped rectangles, first-match FindPath) judging recordings of real view trees with probe leaves; small flex/container/decorator families enumerated by a TLC generator, deeper trees seeded; crash/hang isolation per tree",
+        "text": "ViewTreeGen enumerates 304 560 small trees x constraints (flex: 2 directions x 6 justifications x 0..3 probe children over alignments and flex factors; container: sizes x 6x6 alignments x margins; frame/option/either/tag/dynamic decorators; 36 constraints incl. zero and one-cell extents); seeded random trees of depth <= 4 add text, scroll bar, fill, surface, image and glyph leaves, offsets up to i32::MIN/MAX, margins up to usize::MAX, flex factors 1e-9..1e9 and unbounded constraints. Each tree is built through the typed API and, when it has a JSON form, through ViewDeserializer, laid out, rendered into a sentinel-bordered sub-view (as large as the constraint, as the reported size, smaller, or a fixed window) and hit-tested at every cell in crash-isolated workers. LayoutJudge requires: no panic/error/timeout, nothing outside the surface or the root rectangle modified, root size within the constraint, every leaf painting only inside the clipped rectangle its layout node records, every cell covered by a filling leaf showing the last such leaf in render order, and find_path equal to LayoutTree!FindPath and leading to the leaf drawn there.",
+        "note": "Quick tier samples 1 500 of the enumerated vectors (seeded RandomSubset) plus 6 000 random trees; thorough runs all of them plus 300 000 random trees. Exact-cell clause only on trees without anonymous painters (image, glyph, frame border, faces).",
+    },
     "C09": {
         "level": "exploration",
         "technique": "TLA+ reference flow of cell sequences (Printable / NoWrap); real Text layout+render and writer adapters driven with seeded inputs inside sentinel canvases; TLC judge",
